@@ -402,6 +402,85 @@ func streamNeg(c *Ctx) {
 		}
 	}
 	poolIsolationProbe(c)
+	failingCompressorProbe(c)
+}
+
+// failingRLECompressor fails on Close for inputs of exactly 300 bytes (a quota, a broken
+// dictionary): nothing compressed comes out for those.
+type failingRLECompressor struct {
+	rleCompressor
+	n int
+}
+
+func (c *failingRLECompressor) Write(p []byte) (int, error) {
+	c.n += len(p)
+	return c.rleCompressor.Write(p)
+}
+func (c *failingRLECompressor) Reset(w io.Writer) { c.n = 0; c.rleCompressor.Reset(w) }
+func (c *failingRLECompressor) Close() error {
+	if c.n == 300 {
+		return fmt.Errorf("compressor out of order")
+	}
+	return c.rleCompressor.Close()
+}
+
+// failingCompressorProbe: the handler's compressor fails. Whatever the handler then sends, every
+// part of the response that is labelled compressed must be what the named algorithm produces -
+// observed by a client of the same library, which must see the failure as a coded error (not a
+// response it cannot decode), and on the raw response.
+func failingCompressorProbe(c *Ctx) {
+	for _, proto := range []string{"connect", "grpc", "grpcweb"} {
+		for _, kind := range []string{"unary", "server"} {
+			desc := fmt.Sprintf("%s %s call, handler compressor for \"rle\" fails on the 300-byte response message, client accepts rle", proto, kind)
+			c.Count("failing-compressor-probe")
+			hopts := []connect.HandlerOption{connect.WithCodec(rawCodec{"raw"}),
+				connect.WithCompression("rle", newRLEDecompressor, func() connect.Compressor { return &failingRLECompressor{} })}
+			big := bytes.Repeat([]byte{7}, 300)
+			var h *connect.Handler
+			if kind == "unary" {
+				h = connect.NewUnaryHandler("/s/m", func(ctx context.Context, r *connect.Request[[]byte]) (*connect.Response[[]byte], error) {
+					return connect.NewResponse(&big), nil
+				}, hopts...)
+			} else {
+				h = connect.NewServerStreamHandler("/s/m", func(ctx context.Context, r *connect.Request[[]byte], s *connect.ServerStream[[]byte]) error {
+					return s.Send(&big)
+				}, hopts...)
+			}
+			got := safely(func() string {
+				srv := httptest.NewUnstartedServer(h)
+				srv.EnableHTTP2 = true
+				srv.StartTLS()
+				defer srv.Close()
+				copts := []connect.ClientOption{connect.WithCodec(rawCodec{"raw"}), connect.WithAcceptCompression("rle", newRLEDecompressor, newRLECompressor)}
+				if proto == "grpc" {
+					copts = append(copts, connect.WithGRPC())
+				} else if proto == "grpcweb" {
+					copts = append(copts, connect.WithGRPCWeb())
+				}
+				cl := connect.NewClient[[]byte, []byte](srv.Client(), srv.URL+"/s/m", copts...)
+				var err error
+				if kind == "unary" {
+					_, err = cl.CallUnary(context.Background(), connect.NewRequest(&[]byte{1}))
+				} else {
+					var st *connect.ServerStreamForClient[[]byte]
+					st, err = cl.CallServerStream(context.Background(), connect.NewRequest(&[]byte{1}))
+					if err == nil {
+						for st.Receive() {
+						}
+						err = st.Err()
+						st.Close()
+					}
+				}
+				if err == nil {
+					return "ok"
+				}
+				return connect.CodeOf(err).String() + ": " + err.Error()
+			})
+			if !strings.HasPrefix(got, "internal:") || !strings.Contains(got, "compressor out of order") {
+				c.Fail("neg-failed-compression-undecodable", desc, got, "the handler's compression failure must reach the client as the internal error it is; a response whose labels do not match its bytes cannot be decoded by the peer")
+			}
+		}
+	}
 }
 
 // poolIsolationProbe: corrupt compressed calls interleaved with valid ones on one handler:
